@@ -237,13 +237,6 @@ theorem faultOutcome_ctl (f : Outcome Unit) :
   unfold faultOutcome
   cases f <;> simp [OutEq]
 
-/-- the control part of a state is kept when both sides get the same control updates -/
-theorem CtlEq.update {s₁ : AState ρ σ₁} {s₂ : AState ρ σ₂} (h : CtlEq s₁ s₂) (last ratio : ρ) (needed : Nat) :
-    CtlEq { s₁ with lastIndex := last, ratio := ratio, needed := needed }
-          { s₂ with lastIndex := last, ratio := ratio, needed := needed } :=
-  ⟨h.kind, h.nch, h.chunk, h.maxChunk, rfl, h.fill, rfl, rfl, h.orig, h.target, h.maxRel, h.L, h.deg,
-    h.sint, h.mask, h.ipLen, h.ipNbr, h.shape⟩
-
 theorem stale_ctl {s₁ : AState ρ σ₁} {s₂ : AState ρ σ₂} (h : CtlEq s₁ s₂) (ps : List ρ) (e : Int) :
     (ps.any fun p => decide (readEnd s₁ p > e)) = (ps.any fun p => decide (readEnd s₂ p > e)) := by
   congr 1
@@ -491,5 +484,116 @@ theorem reset_ctlEq {s₁ : AState ρ σ₁} {s₂ : AState ρ σ₂} (h : CtlEq
       | rfl | exact h.kind | exact h.nch | exact h.chunk | exact h.maxChunk | exact h.needed | exact h.fill
       | exact h.orig | exact h.maxRel | exact h.L | exact h.deg | exact h.sint | exact h.ipLen | exact h.ipNbr
       | (simp only [bufShape_zeroLike]; exact h.shape))
+
+/-! ### Histories of any length -/
+
+/-- two operations of the same shape: same kind of operation, equal control arguments,
+`ArgsEq` for processing calls -/
+def OpEq : AOp ρ σ₁ → AOp ρ σ₂ → Prop
+  | .proc a₁, .proc a₂ => ArgsEq a₁ a₂
+  | .ratio r₁ b₁, .ratio r₂ b₂ => r₁ = r₂ ∧ b₁ = b₂
+  | .rel r₁ b₁, .rel r₂ b₂ => r₁ = r₂ ∧ b₁ = b₂
+  | .chunk n₁, .chunk n₂ => n₁ = n₂
+  | .reset, .reset => True
+  | _, _ => False
+
+/-- histories related pointwise -/
+inductive OpsEq : List (AOp ρ σ₁) → List (AOp ρ σ₂) → Prop
+  | nil : OpsEq [] []
+  | cons {o₁ o₂ l₁ l₂} : OpEq o₁ o₂ → OpsEq l₁ l₂ → OpsEq (o₁ :: l₁) (o₂ :: l₂)
+
+theorem step_ctlEq {s₁ : AState ρ σ₁} {s₂ : AState ρ σ₂} (h : CtlEq s₁ s₂) {o₁ : AOp ρ σ₁} {o₂ : AOp ρ σ₂}
+    (ho : OpEq o₁ o₂) : CtlEq (s₁.step o₁) (s₂.step o₂) := by
+  cases o₁ <;> cases o₂ <;> simp only [OpEq] at ho
+  · exact (process_ctlEq h ho).1
+  · obtain ⟨rfl, rfl⟩ := ho; exact (setRatio_ctlEq h _ _).1
+  · obtain ⟨rfl, rfl⟩ := ho; exact (setRatioRelative_ctlEq h _ _).1
+  · subst ho; exact (setChunk_ctlEq h _).1
+  · exact reset_ctlEq h
+
+/-- **C17, histories**: related states driven by histories of the same shape stay related
+(no bound on the length). -/
+theorem run_ctlEq {ops₁ : List (AOp ρ σ₁)} {ops₂ : List (AOp ρ σ₂)} (ho : OpsEq ops₁ ops₂) :
+    ∀ {s₁ : AState ρ σ₁} {s₂ : AState ρ σ₂}, CtlEq s₁ s₂ → CtlEq (s₁.run ops₁) (s₂.run ops₂) := by
+  induction ho with
+  | nil => intro s₁ s₂ h; exact h
+  | cons h1 _ ih =>
+    intro s₁ s₂ h
+    simp only [AState.run, List.foldl_cons]
+    exact ih (step_ctlEq h h1)
+
+/-! ### What a caller observes along a history -/
+
+/-- sample-free shape of a successful call -/
+structure OutSh where
+  nIn : Nat
+  nOut : Nat
+  stale : Bool
+  sizes : List (Option Nat)
+
+/-- sample-free shape of an outcome -/
+def outShape {σ : Type} : Outcome (CallOut σ) → Outcome OutSh
+  | .ok o => .ok ⟨o.nIn, o.nOut, o.stale, outSizes o.out⟩
+  | .err e => .err e
+  | .panic m => .panic m
+  | .abort m => .abort m
+
+theorem outEq_iff (o₁ : Outcome (CallOut σ₁)) (o₂ : Outcome (CallOut σ₂)) :
+    OutEq o₁ o₂ ↔ outShape o₁ = outShape o₂ := by
+  cases o₁ <;> cases o₂ <;> simp [OutEq, outShape]
+
+/-- what the caller sees of one operation: its result (shape only for a processing call), and the
+two `*_frames_next` getters afterwards -/
+structure Obs where
+  res : Outcome OutSh ⊕ Except RErr Unit
+  inNext : Nat
+  outNext : Nat
+
+def stepRes {σ : Type} [SNum ρ σ] (s : AState ρ σ) : AOp ρ σ → Outcome OutSh ⊕ Except RErr Unit
+  | .proc a => .inl (outShape (s.process a).2)
+  | .ratio r ramp => .inr (s.setRatio r ramp).2
+  | .rel r ramp => .inr (s.setRatioRelative r ramp).2
+  | .chunk n => .inr (s.setChunk n).2
+  | .reset => .inr (.ok ())
+
+/-- the observations along a history -/
+def obsTrace {σ : Type} [SNum ρ σ] (s : AState ρ σ) : List (AOp ρ σ) → List Obs
+  | [] => []
+  | op :: ops =>
+    ⟨stepRes s op, (s.step op).inputFramesNext, (s.step op).outputFramesNext⟩ :: obsTrace (s.step op) ops
+
+theorem stepRes_ctlEq {s₁ : AState ρ σ₁} {s₂ : AState ρ σ₂} (h : CtlEq s₁ s₂) {o₁ : AOp ρ σ₁} {o₂ : AOp ρ σ₂}
+    (ho : OpEq o₁ o₂) : stepRes s₁ o₁ = stepRes s₂ o₂ := by
+  cases o₁ <;> cases o₂ <;> simp only [OpEq] at ho
+  · simp only [stepRes]; rw [(outEq_iff _ _).1 (process_ctlEq h ho).2]
+  · obtain ⟨rfl, rfl⟩ := ho; simp only [stepRes]; rw [(setRatio_ctlEq h _ _).2]
+  · obtain ⟨rfl, rfl⟩ := ho; simp only [stepRes]; rw [(setRatioRelative_ctlEq h _ _).2]
+  · subst ho; simp only [stepRes]; rw [(setChunk_ctlEq h _).2]
+  · rfl
+
+/-- **C17 as the caller sees it**: identical sequences of results (errors, panics, frame counts,
+`stale`, sizes written per channel) and of `input_frames_next` / `output_frames_next`. -/
+theorem trace_eq {ops₁ : List (AOp ρ σ₁)} {ops₂ : List (AOp ρ σ₂)} (ho : OpsEq ops₁ ops₂) :
+    ∀ {s₁ : AState ρ σ₁} {s₂ : AState ρ σ₂}, CtlEq s₁ s₂ → obsTrace s₁ ops₁ = obsTrace s₂ ops₂ := by
+  induction ho with
+  | nil => intro s₁ s₂ h; rfl
+  | cons h1 _ ih =>
+    intro s₁ s₂ h
+    have hs := step_ctlEq h h1
+    have hg := getters_ctlEq hs
+    simp only [obsTrace]
+    rw [stepRes_ctlEq h h1, hg.1, hg.2.2.1, ih hs]
+
+/-- the same, from construction: two resamplers built with the same parameters -/
+theorem trace_eq_from_init (kind : AKind) (ratio maxRel : ρ) (deg : Degree) (sint : SincInterp)
+    (ip₁ : Interp σ₁) (ip₂ : Interp σ₂) (hl : ip₁.len = ip₂.len) (hn : ip₁.nbr = ip₂.nbr) (chunk nch : Nat)
+    (s₁ : AState ρ σ₁) (s₂ : AState ρ σ₂)
+    (h₁ : AState.init kind ratio maxRel deg sint ip₁ chunk nch = .ok s₁)
+    (h₂ : AState.init kind ratio maxRel deg sint ip₂ chunk nch = .ok s₂)
+    {ops₁ : List (AOp ρ σ₁)} {ops₂ : List (AOp ρ σ₂)} (ho : OpsEq ops₁ ops₂) :
+    obsTrace s₁ ops₁ = obsTrace s₂ ops₂ ∧ CtlEq (s₁.run ops₁) (s₂.run ops₂) := by
+  have h := init_ctlEq kind ratio maxRel deg sint ip₁ ip₂ hl hn chunk nch
+  rw [h₁, h₂] at h
+  exact ⟨trace_eq ho h, run_ctlEq ho h⟩
 
 end Rubato.Indep
